@@ -206,6 +206,8 @@ def oracle_detail(case, impl, spec):
                 f7 = d.endswith('!f7') and st['out'] == 'ok' and not (st['fo'] or st['ro'] or st['fb'] or st['rb']) \
                     and (st['h'], st['b'], st['c']) == ('1', '1', '1')
                 fails.append(('step %d (%s): attempt on a non-heap object gives %s, the property demands ResourceError or ValueError' % (n, op, st['out']), f7))
+            elif st['fb'] or st['rb']:
+                fails.append(('step %d (%s): raised %s but had already passed the object\'s buffer to free/realloc (free %d, realloc %d): the object is not left intact' % (n, op, st['out'], st['fb'], st['rb']), False))
             elif '0' in (st['h'], st['b'], st['c']):
                 fails.append(('step %d (%s): raised %s but the object was changed (header/body/buffer intact = %s%s%s)' % (n, op, st['out'], st['h'], st['b'], st['c']), False))
     if total != '-':
